@@ -67,7 +67,7 @@ extern int __lsan_do_recoverable_leak_check(void) __attribute__((weak));
 /* scenario description                                                                             */
 enum { OP_PUT, OP_DEL, OP_REG, OP_CAN, OP_CHG, OP_RST };
 enum { R_S1, R_D1, R_D2, R_D3, NRES };
-static const char *res_names[NRES] = {"s1", "d1", "d2", "d3"};
+static const char *res_names[NRES] = {"s1", "d1", "d1x", "d2"}; /* the second dynamic name extends the first: records are told apart by the whole name */
 enum { P_CTL, P_1, P_2, P_PROBE, NPEER };
 #define MAXOPS 8
 struct op {
